@@ -1,4 +1,5 @@
 #include "ops_hashmap.h"
+#include <optional>
 #include "../runtime/value.h"
 #include "../runtime/logging.h"
 #include "../runtime/runtime.h"
@@ -74,7 +75,17 @@ namespace
             // Keys are captured by value: later changes to an array used as key must not reach the map
             if (key.is<t_array>()) { key = sqf::runtime::value(key.data<d_array>()->copy_deep()); }
             // ToDo: Check key-type matches
+            auto existing = data->map().find(key);
+            std::optional<sqf::runtime::value> previous;
+            if (existing != data->map().end()) { previous = existing->second; }
             data->map()[key] = value;
+            if (data->contains_itself())
+            { // the value (transitively) contains this hashmap: refuse, like arrays do
+                if (previous.has_value()) { data->map()[key] = *previous; }
+                else { data->map().erase(key); }
+                runtime.__logmsg(err::ArrayRecursion(runtime.context_active().current_frame().diag_info_from_position()));
+                return {};
+            }
         }
         else
         {
